@@ -174,13 +174,15 @@ def text(rng, segs, links, stale, shuffle=True):
     return "\n".join(L) + "\n"
 
 
-def run_order(gtext, order, with_seq, by_chrom, tmp, gz=False, default_order=False):
-    """in-process run of the real run_order_gfa; returns dict(outcome, files{chrom: text}, csv{chrom: text}, complete)"""
+def run_order(gtext, order, with_seq, by_chrom, tmp, gz=False, default_order=False, keep_outdir=False):
+    """in-process run of the real run_order_gfa; returns dict(outcome, files{chrom: text}, csv{chrom: text}, complete);
+    keep_outdir: write into the output directory as the previous run left it (a re-used --outdir)"""
     from gaftools.cli import order_gfa
     src = os.path.join(tmp, "in.gfa" + (".gz" if gz else ""))
     (gen.write_gzip if gz else gen.write_text)(src, gtext)
     out = os.path.join(tmp, "out")
-    shutil.rmtree(out, ignore_errors=True)
+    if not keep_outdir:
+        shutil.rmtree(out, ignore_errors=True)
     try:
         with watchdog(120):
             tool("order_gfa", gfa_filename=src, outdir=out, by_chrom=by_chrom, chromosome_order=("" if default_order else ",".join(order)), with_sequence=with_seq)
@@ -429,6 +431,8 @@ def main(prop):
                                 bc, resb.get("exc") or "exit %s" % resb.get("code")), dict(replay, order=bad, by_chrom=bc))
                         elif any(t.strip() for t in resb["files"].values()) or any(t.strip() for t in resb["csv"].values()):
                             ck.violation("something was written although every requested chromosome is skipped (by_chrom=%s)" % bc, dict(replay, order=bad, by_chrom=bc))
+            if prop in ("C18", "C07") and it % 3 == 1 and not default_order:
+                reused_outdir_check(ck, rng, segs, links, order, with_seq, res, tmp, replay)
             if prop == "C18" and any(broken.values()):
                 good = [c for c in order if c in res["files"]]
                 if good and len(good) < len(order):
@@ -651,6 +655,39 @@ def command_check(ck, prop, gtext, tok, order, with_seq, res, r, tmp, replay, de
         if model_rejects != (outcome == "rejected") or (outcome == "rejected" and wrote):
             ck.disagreement("request %r: the tool %s%s, the model %s" % (opt, outcome, " after writing files" if wrote else "", "rejects" if model_rejects else "accepts"),
                             dict(replay, option=opt, names=names))
+
+
+def reused_outdir_check(ck, rng, segs, links, order, with_seq, res, tmp, replay):
+    """a re-used --outdir: first a --by-chrom run in which chromosome c is orderable, then - same file name, same directory - a
+    run without --by-chrom on the graph in which c has gained branching tips and must be skipped. The -complete files must be
+    those of a run into a fresh directory: nothing of the earlier run's files for c may enter them."""
+    good = [c for c in order if c in res["files"]]
+    if not good:
+        return
+    c = rng.choice(good)
+    ref = sorted([sg for sg in segs if sg[1] == c and sg[3] == 0], key=lambda sg: sg[2])
+    if len(ref) < 3:
+        return
+    mid = ref[len(ref) // 2]
+    segs2 = [list(sg) for sg in segs] + [["tipA_%s" % c, c + "_t", 3, 4, "AC", []], ["tipB_%s" % c, c + "_t", 30, 4, "GT", []]]
+    links2 = list(links) + [(mid[0], "+", "tipA_%s" % c, "+", 0, []), (mid[0], "+", "tipB_%s" % c, "+", 0, [])]
+    g1 = text(rng, segs, links, stale=False)
+    g2 = text(rng, segs2, links2, stale=False)
+    fresh = run_order(g2, order, with_seq, False, tmp)
+    if fresh["outcome"] != "ok":
+        return
+    first = run_order(g1, order, with_seq, True, tmp)
+    if first["outcome"] != "ok" or c not in first["files"]:
+        return
+    again = run_order(g2, order, with_seq, False, tmp, keep_outdir=True)
+    ck.count("reused-outdir")
+    if again["outcome"] != "ok":
+        ck.violation("order_gfa fails when --outdir holds the files of an earlier run", dict(replay, gfa=g1, gfa2=g2, chromosome=c))
+        return
+    canon = lambda t: ([l for l in t.splitlines() if l.startswith("S")], sorted(l for l in t.splitlines() if l.startswith("L")))
+    if canon(again["files"].get("complete", "")) != canon(fresh["files"].get("complete", "")) or again["csv"].get("complete") != fresh["csv"].get("complete"):
+        ck.violation("the -complete output depends on files an earlier run left in --outdir (chromosome %s was orderable then, is skipped now)" % c,
+                     dict(replay, gfa=g1, gfa2=g2, chromosome=c, complete=again["files"].get("complete", "")[:3000]))
 
 
 def roundtrip_io(ck, tmp, n):
